@@ -57,6 +57,10 @@ func (o *c13Obs) observe() {
 		}
 	}
 	o.nCommits = len(n.commits)
+	for _, c := range n.commits {
+		// a height is committed only in a round that was announced before
+		env.Assert("C13.commit_after_its_round", c.seq >= 1 && c.block != nil && n.rounds[c.seq-1].height == c.block.H)
+	}
 	o.wd.checkHeightIsAnnouncedRound()
 }
 
@@ -113,7 +117,7 @@ func C13_Worker() {
 	k := env.Param("events")
 	wd := newWorldStopped(me, paramWeights())
 	n := wd.n
-	n.commitErr = false
+	n.commitErr = env.ParamOr("commit_fails", 0) == 1
 	p0 := env.NondetU64("p0")
 	env.Assume(p0 < 1<<62)
 	var prev interfaces.Block
